@@ -42,7 +42,7 @@ FLOORS = {
     "thorough": {"weight_identities": 5000, "lml_checks": 1000, "exact_instances": 80, "sampled_instances": 20, "site_param_matches": 4000, "rejuvenate_weight_checks": 200},
 }
 TIMEOUT_S = {"quick": 1800, "thorough": 7200}
-TAG_X, TAG_Y, TAG_Q, TAG_RC, TAG_RU, TAG_MU, TAG_MN = 101, 102, 103, 9101, 9102, 9001, 9002
+TAG_X, TAG_Y, TAG_Q, TAG_Z, TAG_RC, TAG_RU, TAG_MU, TAG_MN = 101, 102, 103, 104, 9101, 9102, 9001, 9002
 
 
 def plan(tier, seed):
@@ -88,7 +88,7 @@ def _probes_on(on):
 # ---------------------------------------------------------------------------
 # model family
 # ---------------------------------------------------------------------------
-def _family(rng, emission=None, small=False):
+def _family(rng, emission=None, small=False, aux=None):
     K = int(rng.integers(2, 3 if small else 4))
     M = int(rng.integers(2, 3 if small else 4))
     emission = emission or ("cat" if rng.random() < 0.6 else "normal")
@@ -97,7 +97,12 @@ def _family(rng, emission=None, small=False):
     mu = np.round(rng.normal(size=K) * 1.5, 3)
     sig = float(np.round(rng.uniform(0.5, 1.5), 3))
     Q = np.round(rng.normal(size=(K, M, K)) * 1.0, 3)
-    return {"K": K, "M": M, "emission": emission, "A": A, "B": B, "mu": mu, "sig": sig, "Q": Q}
+    # optional second latent per step, z_t ~ Cat(C[x_t]): a custom proposal then covers only PART of the step's
+    # latents (x) and z is left to the model's own proposal inside generate - its prior term must cancel in the weight
+    C = np.round(rng.normal(size=(K, 2)) * 1.2, 3)
+    if aux is None:
+        aux = bool(rng.random() < 0.4)
+    return {"K": K, "M": M, "emission": emission, "A": A, "B": B, "mu": mu, "sig": sig, "Q": Q, "C": C, "aux": bool(aux)}
 
 
 def _lsm(v):
@@ -158,11 +163,16 @@ def _build(fam):
     sig = fam["sig"]
     M = fam["M"]
     px, py, pq = probes.probe("cat", TAG_X), probes.probe("cat", TAG_Y), probes.probe("cat", TAG_Q)
+    pz = probes.probe("cat", TAG_Z)
+    C = jnp.asarray(fam["C"], jnp.float32)
+    aux = fam.get("aux", False)
     emission = fam["emission"]
 
     @gen
     def model(prev):
         x = px(A[prev]) @ "x"
+        if aux:
+            pz(C[x]) @ "z"
         if emission == "cat":
             py(B[x]) @ "y"
         else:
@@ -229,7 +239,7 @@ def _run_pipeline(case, ctx):
     T = int(rng.integers(2, 5))
     use_prop = bool(rng.random() < 0.5)
     ys = _obs(fam, rng, T)
-    base = {"K": fam["K"], "M": fam["M"], "emission": fam["emission"], "N": N, "custom_proposal": use_prop, "observations": ys,
+    base = {"K": fam["K"], "M": fam["M"], "emission": fam["emission"], "N": N, "custom_proposal": use_prop, "aux_latent": fam["aux"], "C": fam["C"].tolist(), "observations": ys,
             "A": fam["A"].tolist(), "B": fam["B"].tolist(), "mu": fam["mu"].tolist(), "sigma": fam["sig"], "Q": fam["Q"].tolist()}
     pipeline = []
     probes.HOST.reset("observe", int(rng.integers(2**31)))
@@ -338,7 +348,7 @@ def _check_move(ctx, ref, fam, p, prev_ret, lw_prev, y, use_prop, acc_ref, event
         ctx.count("weight_identities")
         if not (abs(lw[i] - want) <= 2e-5 * (1 + abs(want)) + 1e-5):
             ctx.violation(
-                f"{op}|particle-weight-differs" + ("|custom-proposal" if use_prop else "|default-proposal"),
+                f"{op}|particle-weight-differs" + ("|custom-proposal" if use_prop else "|default-proposal") + ("|partial" if use_prop and fam.get("aux") else ""),
                 {**d, "particle": i, "prev_state": int(prev_ret[i]), "x": int(xs[i]), "y": y, "log_weight": lw[i], "reference": want},
             )
             return False
@@ -362,6 +372,26 @@ def _check_move(ctx, ref, fam, p, prev_ret, lw_prev, y, use_prop, acc_ref, event
             return False
         used[hit] = True
         ctx.count("site_param_matches")
+    if fam.get("aux"):
+        # the auxiliary latent is always drawn by the model itself, given the particle's own x
+        zs = np.asarray(ch["z"]).astype(np.int64)
+        evz = [e for e in events if e.tag == TAG_Z]
+        if len(evz) != N:
+            ctx.violation(f"{op}|aux-latent|draws-per-particle", {**d, "draws": len(evz), "particles": N})
+            return False
+        usedz = [False] * N
+        for i in range(N):
+            want = fam["C"][xs[i]]
+            hit = None
+            for j, e in enumerate(evz):
+                if not usedz[j] and int(e.value) == int(zs[i]) and np.allclose(np.asarray(e.params[0]), want, atol=1e-5):
+                    hit = j
+                    break
+            if hit is None:
+                ctx.violation(f"{op}|aux-latent|site-saw-another-particles-parameters", {**d, "particle": i, "x": int(xs[i]), "z": int(zs[i])})
+                return False
+            usedz[hit] = True
+            ctx.count("aux_site_param_matches")
     # marginal estimate
     ctx.count("lml_checks")
     want = _lml_ref(acc_ref, lw)
@@ -389,14 +419,15 @@ def _run_exact(case, ctx):
     ctx.evaluation()
     fam = _family(rng, emission="cat" if rng.random() < 0.7 else "normal", small=True)
     ref = RefHMM(fam)
-    model, q0, q = _build(fam)
     N = int(rng.choice([1, 2, 2, 3]))
     T = int(rng.integers(1, 4)) if N < 3 else int(rng.integers(1, 3))
+    fam["aux"] = bool(fam["aux"] and N * T <= 3)  # every auxiliary site doubles the outcome tree
+    model, q0, q = _build(fam)
     use_prop = bool(rng.random() < 0.5)
     ys = _obs(fam, rng, T)
     mode = "composed" if rng.random() < 0.6 else "rejuvenation_smc"
     resample_at = [bool(rng.random() < 0.5) for _ in range(T)]
-    base = {"K": fam["K"], "M": fam["M"], "emission": fam["emission"], "N": N, "T": T, "custom_proposal": use_prop, "observations": ys,
+    base = {"K": fam["K"], "M": fam["M"], "emission": fam["emission"], "N": N, "T": T, "custom_proposal": use_prop, "aux_latent": fam["aux"], "observations": ys,
             "mode": mode, "resample_after_step": resample_at,
             "A": fam["A"].tolist(), "B": fam["B"].tolist(), "mu": fam["mu"].tolist(), "sigma": fam["sig"], "Q": fam["Q"].tolist()}
     alphas = ref.forward(ys)
